@@ -251,7 +251,7 @@ func genResetCase(t *rapid.T, kind string) (ResetCase, *parserExec, bool) {
 			data = data[:n]
 		}
 		cp := rapid.SampledFrom([]int{0, 7, 8, 64}).Draw(t, "resetCap")
-		x.step(POp{Op: "reset", Data: data, Cap: cp})
+		x.step(POp{Op: "reset", Data: data, Cap: cp, Reuse: rapid.Bool().Draw(t, "resetReuse")})
 	} else {
 		x.step(POp{Op: "reset", Nil: true})
 	}
@@ -359,7 +359,7 @@ func genAbandonCase(t *rapid.T, cfg PCfg, x *parserExec) (ResetCase, *parserExec
 		m = m[:x.cc.BufferSize]
 	}
 	if rapid.Bool().Draw(t, "abResetWithData") {
-		x.step(POp{Op: "reset", Data: m, Cap: rapid.SampledFrom([]int{0, 7, 8, 64}).Draw(t, "abCap")})
+		x.step(POp{Op: "reset", Data: m, Cap: rapid.SampledFrom([]int{0, 7, 8, 64}).Draw(t, "abCap"), Reuse: rapid.Bool().Draw(t, "abReuse")})
 	} else {
 		x.step(POp{Op: "reset", Nil: true})
 		x.step(POp{Op: "write", Data: m})
